@@ -77,4 +77,24 @@ Proof.
   exact (parse_script gen_tables ex_text ex_script ns L' twf_gen_tables (proj1 ex_lexes) (proj2 ex_lexes) Hwf).
 Qed.
 
+(* a multi-line ("text:") string as an argument *)
+Definition ex_ml_value : bytes :=
+  (bs "text:" ++ [10%N] ++ bs "Dear sender," ++ [10%N] ++ bs "..not for you" ++ [10%N] ++ bs ".")%list.
+
+Definition ex_ml_text : bytes := (bs "require ""reject""; reject " ++ ex_ml_value ++ [10%N] ++ bs ";")%list.
+
+Definition ex_ml_script : list gcmd :=
+  [ GAct (bs "require") [(TyString, VStr (q "reject"))];
+    GAct (bs "reject") [(TyString, VStr ex_ml_value)] ].
+
+Example ex_ml_lexes : snd (lex ex_ml_text) = None /\ map strip_pos (fst (lex ex_ml_text)) = flat_map toks_cmd ex_ml_script.
+Proof. vm_compute. split; reflexivity. Qed.
+
+Example ex_ml_wf : exists L' ns, wf_cmds gen_tables [] None ex_ml_script ns L' /\ parse gen_tables ex_ml_text = Accept ns.
+Proof.
+  eexists. eexists. split.
+  - unfold ex_ml_script. eapply wf_cons; [act|]. eapply wf_cons; [act|apply wf_nil].
+  - vm_compute. reflexivity.
+Qed.
+
 Print Assumptions ex_wf.
